@@ -8,6 +8,7 @@ spellings. Differential oracle: the observation tuple of every node equals its s
 
 import itertools
 import json
+import zlib
 
 from .. import core, observe, sweep
 from ..engine import rewrite
@@ -92,7 +93,37 @@ def compare(fam, seed, s, want=None):
         return "not equal to the object built from the equivalent vector %r" % (seed,)
     if hash(obj) != hash(so):
         return "hash differs from the object built from the equivalent vector %r" % (seed,)
+    if alt_entries(fam, s):
+        # the same spelling through the library's other entry points
+        for e in observe.ENTRIES:
+            observe.ENTRY = e
+            try:
+                try:
+                    o2 = observe.construct(fam, s)
+                    got = json.loads(json.dumps(observe.observation(fam, o2)))
+                except Exception as e2:  # noqa
+                    return "raised %s: %s%s" % (type(e2).__name__, e2, observe.via())
+                for k in sorted(want):
+                    if got.get(k) != want[k]:
+                        return "%s is %r, but %r for the equivalent vector %r%s" % (
+                            k, got.get(k), want[k], seed, observe.via())
+                if not (o2 == so) or hash(o2) != hash(so):
+                    return "not equal to / hashing like the object built from the equivalent vector %r%s" % (
+                        seed, observe.via())
+            finally:
+                observe.ENTRY = "direct"
+        ALT[0] += 1
     return None
+
+
+ALT = [0]
+
+
+def alt_entries(fam, s):
+    """Spellings that also go through from_rh_vector, parse_cvss_from_text and hash-then-read:
+    every spelling that writes out all metrics or all but one, and every eighth of the others."""
+    nfields = len(s[len(T.PREFIX[fam]):].split("/"))
+    return nfields >= len(T.METRICS[fam]) - 1 or zlib.crc32(s.encode("utf-8")) % 8 == 0
 
 
 def judge(acc, s):
